@@ -3059,7 +3059,10 @@ class Network(Cached):
         """
         DwR = self.sp_diag_sqrt_w()
         sp_Astar = DwR * self.sp_Aplus() * DwR
-        _, evecs = eigsh(sp_Astar, k=1, sigma=self.total_node_weight**2,
+        #  the shift has to lie above the largest eigenvalue, which is bounded
+        #  by the total node weight W (W**2 alone is too small for W < 1)
+        W = self.total_node_weight
+        _, evecs = eigsh(sp_Astar, k=1, sigma=max(W**2, 2*W),
                          maxiter=100, tol=1e-8)
         ec = evecs.T[0] / np.sqrt(self.node_weights)
         ec *= np.sign(ec[0])
